@@ -93,4 +93,55 @@ __attribute__((noinline)) void h_f2_outer(void) {
   __verif_check(bad == 0);
   __verif_check(calls == nc[a1] * nc[a2]);
 }
+// ---------------- F4 (Engine B): the positivity safeguards - after each kernel mass, energy, density and pressure are >= 0
+static inline void sym_cell(HydroVariables &s) {
+  for (int k = 0; k < 5; ++k) { s._primitives[k] = nondet_double(); s._conserved[k] = nondet_double(); s._delta_conserved[k] = nondet_double(); s._primitive_gradients[k] = CoordinateVector<>(nondet_double(), nondet_double(), nondet_double()); }
+  s._gravitational_acceleration = CoordinateVector<>(nondet_double(), nondet_double(), nondet_double()); s._energy_rate_term = nondet_double(); s._energy_term = nondet_double();
+}
+static inline void sym_gamma(Hydro &hy) {
+  const_cast<double &>(hy._gamma) = nondet_double(); __CPROVER_assume((hy._gamma > 1.) & (hy._gamma <= 2.));
+  const_cast<double &>(hy._gamma_minus_one) = nondet_double(); __CPROVER_assume((hy._gamma_minus_one > 0.) & (hy._gamma_minus_one <= 1.));
+  const_cast<double &>(hy._one_over_gamma_minus_one) = nondet_double(); __CPROVER_assume(hy._one_over_gamma_minus_one >= 1.);
+  const_cast<double &>(hy._max_velocity) = nondet_double(); __CPROVER_assume(hy._max_velocity > 0.);
+}
+__attribute__((noinline)) void h_f4_update_conserved(void) {
+  HydroDensitySubGrid &s = g_ug2.g[0];
+  s._number_of_cells[0] = 1; s._number_of_cells[1] = 1; s._number_of_cells[2] = 1; s._number_of_cells[3] = 1;
+  s._hydro_variables = cells0; s._primitive_variable_limiters = lim0;
+  sym_cell(cells0[0]);                                                       // any finite cell state: conserved values, pending changes and source terms of either sign
+  const double dt = nondet_double(); __CPROVER_assume(dt > 0.);
+  s.update_conserved_variables(dt);
+  __verif_check(cells0[0]._conserved[0] >= 0.);                              // mass never negative
+  __verif_check(cells0[0]._conserved[4] >= 0.);                              // total energy never negative
+  for (int k = 0; k < 5; ++k) __verif_check(cells0[0]._delta_conserved[k] == 0.);   // pending changes are consumed exactly once
+  __verif_check(cells0[0]._energy_term == 0.);
+}
+__attribute__((noinline)) void h_f4_set_primitive(void) {
+  Hydro &hy = g_uh.h; sym_gamma(hy);
+  union U1 { HydroVariables v; U1() {} ~U1() {} } u; union U3 { IonizationVariables v; U3() {} ~U3() {} } iv;
+  sym_cell(u.v);
+  const double inverse_volume = nondet_double(); __CPROVER_assume(inverse_volume > 0.);
+  hy.set_primitive_variables(u.v, iv.v, inverse_volume);
+  __verif_check(u.v._primitives[0] >= 0.);                                   // density
+  __verif_check(u.v._primitives[4] >= 0.);                                   // pressure
+  if (!(u.v._conserved[0] > 0.)) { __verif_check(u.v._primitives[0] == 0.); __verif_check(u.v._primitives[4] == 0.);      // empty cell: vacuum state
+    __verif_check((u.v._primitives[1] == 0.) & (u.v._primitives[2] == 0.) & (u.v._primitives[3] == 0.)); }
+}
+__attribute__((noinline)) void h_f4_set_conserved(void) {
+  Hydro &hy = g_uh.h; sym_gamma(hy);
+  union U1 { HydroVariables v; U1() {} ~U1() {} } u; sym_cell(u.v);
+  const double volume = nondet_double(); __CPROVER_assume(volume > 0.);
+  hy.set_conserved_variables(u.v, volume);
+  __verif_check(u.v._conserved[0] >= 0.);
+  __verif_check(u.v._conserved[4] >= 0.);
+}
+__attribute__((noinline)) void h_f4_predict(void) {
+  Hydro &hy = g_uh.h; sym_gamma(hy);
+  union U1 { HydroVariables v; U1() {} ~U1() {} } u; sym_cell(u.v);
+  __CPROVER_assume((u.v._primitives[0] >= 0.) & (u.v._primitives[4] >= 0.));                 // a valid state before the half-step prediction
+  const double dt = nondet_double(); __CPROVER_assume(dt > 0.);
+  hy.predict_primitive_variables(u.v, dt);
+  __verif_check(u.v._primitives[0] >= 0.);
+  __verif_check(u.v._primitives[4] >= 0.);
+}
 }
